@@ -1,3 +1,177 @@
-import Sbdf.Slice
+/-
+  C05 — Hostile or corrupt input never breaks memory safety (the part a model can carry).
+
+  Proved here, for every byte string and every column subset:
+  * totality — every reader, skipper and accessor of the model is a total function (accepted by
+    Lean's termination checker; loops are bounded by the counts the C loops use);
+  * no ghost check fails (`NoUB`): no out-of-range shift, no overflowing size computation, no
+    buffer-filling loop writing past / short of its allocation;
+  * only documented status codes.
+  Heap discipline of the C error paths (double free, use after free, leaks, output arguments)
+  is NOT in the model; it is observed under ASan + allocator accounting by the correspondence.
+-/
+import Sbdf.Lemmas.NoUB
+import Sbdf.Gen.Tables
 namespace Sbdf.C05
+
+/-- every reading entry point, on every input: no precondition of a C operation is violated -/
+theorem readers_no_ub (c : Cfg) (n : Nat) (sub : Option (List Bool)) :
+    NoUB fhRead ∧ NoUB (readTM c) ∧ NoUB (readTS c n sub) ∧ NoUB (skipTS c n) ∧
+    NoUB (readCS c) ∧ NoUB (skipCS c) ∧ NoUB (readVA c) ∧ NoUB (skipVA c) := by
+  refine ⟨nub_fhRead, nub_readTM c, nub_readTS c n sub, ?_, nub_readCS c, nub_skipCS c, nub_readVA c, nub_skipVA c⟩
+  unfold skipTS; simp only [P.bind_def]
+  exact NoUB.bind (nub_readTS c n _) (fun _ => NoUB.pure _)
+
+/-- the caller loop over slices never ends in a failed ghost check -/
+theorem readSlices_no_ub (c : Cfg) (n : Nat) (sub : Option (List Bool)) (d : Array UInt8) (fuel pos : Nat) (w : String) :
+    (readSlices c n sub d fuel pos).2 ≠ .failed (.ub w) := by
+  induction fuel generalizing pos with
+  | zero => simp [readSlices]
+  | succ fuel ih =>
+    simp only [readSlices]
+    cases h : readTS c n sub d pos with
+    | error e =>
+      simp only
+      intro he; cases he
+      exact (nub_readTS c n sub).out d pos w h
+    | ok r =>
+      obtain ⟨o, p1⟩ := r
+      cases o with
+      | none => simp
+      | some ts => exact ih p1
+
+/-- whole-file read of arbitrary bytes: no call ends in a failed ghost check -/
+theorem readFile_no_ub (c : Cfg) (sub : Option (List Bool)) (fuel : Nat) (d : Array UInt8) (w : String) :
+    let r := readFileF c sub fuel d
+    r.fh ≠ .error (.ub w) ∧ r.tm ≠ some (.error (.ub w)) ∧ r.last ≠ some (.failed (.ub w)) := by
+  simp only [readFileF]
+  cases hfh : fhRead d 0 with
+  | error e =>
+    refine ⟨?_, by simp, by simp⟩
+    intro he; cases he; exact nub_fhRead.out d 0 w hfh
+  | ok r1 =>
+    obtain ⟨v, p1⟩ := r1
+    simp only
+    cases htm : readTM c d p1 with
+    | error e =>
+      refine ⟨by simp, ?_, by simp⟩
+      intro he; simp at he; cases he; exact (nub_readTM c).out d p1 w htm
+    | ok r2 =>
+      obtain ⟨tm, p2⟩ := r2
+      refine ⟨by simp, by simp, ?_⟩
+      intro he; simp at he
+      exact readSlices_no_ub c _ sub d fuel p2 w he
+
+/-! ### decoding what the readers return -/
+
+theorem expand_zip_length (runs : Bytes) (vals : List Bytes) (h : runs.length = vals.length) :
+    (rleExpand (runs.zip vals)).length = rleTotal runs := by
+  unfold rleTotal
+  suffices hs : ∀ acc, List.foldl (fun acc r => acc + r.toNat + 1) acc runs = acc + (rleExpand (runs.zip vals)).length by
+    simpa using (hs 0).symm
+  induction runs generalizing vals with
+  | nil => intro acc; simp [rleExpand]
+  | cons r rs ih =>
+    cases vals with
+    | nil => simp at h
+    | cons v vs =>
+      intro acc
+      simp only [List.length_cons, Nat.add_right_cancel_iff] at h
+      simp only [List.foldl_cons, List.zip_cons_cons, rleExpand, List.length_append, List.length_replicate, ih vs h]
+      omega
+
+/-- the run-length decoder never writes past, or short of, its output buffer — for ANY stored
+    row count, run bytes and values (inconsistent ones are refused with a status) -/
+theorem rle_decode_no_ub (c : Cfg) (rows : Int) (runs : Bytes) (vals : Obj) (w : String) :
+    getValues c (.rle rows runs vals) ≠ .error (.ub w) := by
+  simp only [getValues]
+  split
+  · simp
+  · split; · simp
+    split; · simp
+    split; · simp
+    split; · simp
+    rename_i h1 h2 _ _
+    simp only [ne_eq, Decidable.not_not] at h1 h2
+    have hl := expand_zip_length runs vals.elems h1
+    have : (rleExpand (runs.zip vals.elems)).length = rows.toNat := by rw [hl, ← h2]; simp
+    simp [this]
+
+/-- value arrays as the reader builds them: a bit array holds exactly ⌈rows/8⌉ bytes -/
+def Sane : VA → Prop
+  | .bit _ rows bits => 0 ≤ rows → rows.toNat ≤ bits.length * 8
+  | _ => True
+
+theorem packedSize_enough (v : Int) (h : 0 ≤ v) : v.toNat ≤ (packedSize v).toNat * 8 := by
+  unfold packedSize
+  have h1 : Int.tdiv v 8 = v / 8 := Int.tdiv_eq_ediv_of_nonneg h
+  have h2 : Int.tmod v 8 = v % 8 := Int.tmod_eq_emod_of_nonneg h
+  rw [h1, h2]
+  split <;> omega
+
+theorem readN_length (n : Nat) (d : Array UInt8) (pos : Nat) (b : Bytes) (p : Nat) (h : readN n d pos = .ok (b, p)) :
+    b.length = n := by
+  unfold readN at h
+  split at h
+  · rename_i hn; simp at h; rw [h.1, hn]; rfl
+  · split at h
+    · simp at h; rw [← h.1]; simp; omega
+    · simp at h
+
+theorem readVA_sane (c : Cfg) (d : Array UInt8) (pos : Nat) (va : VA) (p : Nat) (h : readVA c d pos = .ok (va, p)) :
+    Sane va := by
+  simp only [readVA, P.bind_def] at h
+  obtain ⟨e, _, _, h⟩ := P.bind_eq_ok.mp h
+  obtain ⟨vt, _, _, h⟩ := P.bind_eq_ok.mp h
+  split at h
+  · obtain ⟨o, _, _, h⟩ := P.bind_eq_ok.mp h
+    simp only [P.pure_eq_ok, Prod.mk.injEq] at h; rw [h.1]; trivial
+  · split at h
+    · obtain ⟨_, _, _, h⟩ := P.bind_eq_ok.mp h
+      obtain ⟨_, _, _, h⟩ := P.bind_eq_ok.mp h
+      obtain ⟨_, _, _, h⟩ := P.bind_eq_ok.mp h
+      simp only [P.pure_eq_ok, Prod.mk.injEq] at h; rw [h.1]; trivial
+    · split at h
+      · obtain ⟨v, _, _, h⟩ := P.bind_eq_ok.mp h
+        obtain ⟨_, _, _, h⟩ := P.bind_eq_ok.mp h
+        obtain ⟨bits, _, hb, h⟩ := P.bind_eq_ok.mp h
+        obtain ⟨_, _, _, h⟩ := P.bind_eq_ok.mp h
+        simp only [P.pure_eq_ok, Prod.mk.injEq] at h; rw [h.1]
+        intro hv
+        rw [readN_length _ _ _ _ _ hb]
+        exact packedSize_enough v hv
+      · simp at h
+
+/-- decoding any array the reader returned never reads past the packed buffer nor fills the
+    output wrongly: `sbdf_va_get_values` either succeeds or returns a status -/
+theorem decode_no_ub (c : Cfg) (va : VA) (hs : Sane va) (w : String) : getValues c va ≠ .error (.ub w) := by
+  cases va with
+  | plain o => simp [getValues]
+  | rle rows runs vals => exact rle_decode_no_ub c rows runs vals w
+  | bit vt rows bits =>
+    simp only [getValues]
+    split
+    · simp
+    · rename_i h
+      simp only [not_or, Int.not_lt] at h
+      have := hs h.1
+      have : ¬ (bits.length * 8 < rows.toNat) := by omega
+      simp [this]
+
+theorem read_then_decode_no_ub (c : Cfg) (d : Array UInt8) (pos : Nat) (va : VA) (p : Nat)
+    (h : readVA c d pos = .ok (va, p)) (w : String) : getValues c va ≠ .error (.ub w) :=
+  decode_no_ub c va (readVA_sane c d pos va p h) w
+
+/-! ### only documented statuses -/
+
+theorem status_all_complete (s : Status) : s ∈ Status.all := by cases s <;> decide
+
+/-- every status code of the model is a status macro of include/errors.h (regenerated table) -/
+theorem documented_status (s : Status) : s.toInt ∈ Gen.statusMacros.map (·.2) := by
+  have h : ∀ s ∈ Status.all, s.toInt ∈ Gen.statusMacros.map (·.2) := by decide
+  exact h s (status_all_complete s)
+
+/-- non-vacuity: a hostile six-group length is refused, not shifted out of range -/
+example : read7 ([0xff, 0xff, 0xff, 0xff, 0xff, 0x01] : Bytes).toArray 0 = .error (.st .invalidSize) := by rfl
+
 end Sbdf.C05
